@@ -59,7 +59,15 @@ def generate(rng, tier):
             y[m // 2] = float("nan") if (i // 20) % 2 == 0 else float("inf")
             w = 6 + (i // 20) % 2 if (i // 40) % 2 == 0 else w
         cases.append({"x": x, "y": y, "writer": w, "explicit": bool((i // 8) % 2), "stem": rng.choice(["out", "merged", "a_b.c", "s1", "sub/run7"]),
-                      "fn": i % 3, "desc": {"writer": WRITERS[w][0], "explicit_name": bool((i // 8) % 2), "n": m, "grid_x": i % 10 == 0}})
+                      "fn": i % 3, "over_longer": i % 3 == 1,
+                      "desc": {"writer": WRITERS[w][0], "explicit_name": bool((i // 8) % 2), "n": m, "grid_x": i % 10 == 0,
+                               "replaces_a_longer_file": i % 3 == 1}})
+    # one long curve per writer family (more rows than any buffer a writer might use): r up to 100 in steps of 0.01
+    for w in (1, 0) if tier == "quick" else range(8):
+        m = 10001 + w
+        cases.append({"x": [0.01 * j for j in range(m)], "y": [math.sin(0.013 * j) * (1.0 + 1e-4 * j) for j in range(m)], "writer": w, "explicit": bool(w % 2),
+                      "stem": "long", "fn": w % 3, "over_longer": False, "long": True,
+                      "desc": {"writer": WRITERS[w][0], "explicit_name": bool(w % 2), "n": m, "grid_x": True, "replaces_a_longer_file": False}})
     # re-ingestion of a written merged S(Q)
     for i in range(4 if tier == "quick" else 30):
         cfg = SL.gen_config(rng, global_window=False)
@@ -99,6 +107,14 @@ def run_impl(pystog, case):
         fname = "explicit_%d.dat" % case["writer"] if case["explicit"] else None
         if os.path.dirname(case["stem"]):       # a stem that names a directory: the stem-based files go there, "ft.dat" stays where it is documented
             os.makedirs(os.path.dirname(case["stem"]), exist_ok=True)
+        if case.get("over_longer"):
+            # the same name was written before, from a longer curve (an earlier run in this directory): the new file replaces it
+            nx = len(case["x"]) + 6
+            (st.q_master if dom == "q" else st.r_master)[title] = np.array([123456.123456 + j for j in range(nx)], float)
+            (st.sq_master if dom == "q" else st.gr_master)[title] = np.array([-98765.4321 - j for j in range(nx)], float)
+            getattr(st, name)(fname) if fname else getattr(st, name)()
+            (st.q_master if dom == "q" else st.r_master)[title] = np.array(case["x"], float)
+            (st.sq_master if dom == "q" else st.gr_master)[title] = np.array(case["y"], float)
         getattr(st, name)(fname) if fname else getattr(st, name)()
         expect = fname or default.format(stem=case["stem"])
         files = sorted(os.path.relpath(os.path.join(dp, f), ".") for dp, _, fs in os.walk(".") for f in fs)
@@ -114,7 +130,7 @@ def run_impl(pystog, case):
 
 
 def to_coq(case, res):
-    if "exception" in res or not res.get("bytes") or len(res.get("x", [])) == 0 or any(v != v or abs(v) == float("inf") for v in res.get("y", [])):      # (an empty curve: header only, decided by the oracle)
+    if "exception" in res or case.get("long") or not res.get("bytes") or len(res.get("x", [])) == 0 or any(v != v or abs(v) == float("inf") for v in res.get("y", [])):      # (an empty curve: header only, decided by the oracle)
         return None
     return ([res["x"], res["y"], res["rx"], res["ry"]], [], res["bytes"], [])
 
